@@ -896,7 +896,7 @@ class Frame:
             hook = I.models.get("getattr:" + base.cls)
             if hook is not None:
                 return hook(I, base, attr)
-            if base.fields.get("__recorder__"):
+            if base.fields.get("__recorder__") or base.cls == "mpl.Figure":
                 return BoundBuiltin(base, attr)
             raise PyRaise("AttributeError", f"'{base.cls}' object has no attribute '{attr}'")
         if isinstance(base, RepoCls):
